@@ -46,6 +46,8 @@ def make_subclass(rnd, base, name, module):
          "states": [dict(x, inherited=True) for x in base["states"]],
          "trans": [dict(t, inherited=True) for t in base["trans"]],
          "events": list(base["events"]), "cbs": {}}
+    if base.get("any"):
+        s["any"] = [dict(a, inherited=True) for a in base["any"]]
     for c, m in base["cbs"].items():
         if c.startswith("machine."):
             s["cbs"][c] = dict(copy.deepcopy(m), inherited=True, full=f"{base['name']}/{c}")
@@ -86,7 +88,7 @@ def make_collision(rnd, victim, k, name):
     for s_ in p["states"]:
         if s_["id"] == old:
             s_["id"] = new_id
-    for t in p["trans"]:
+    for t in p["trans"] + p.get("any", []):
         if t["src"] == old:
             t["src"] = new_id
         if t["dst"] == old:
@@ -236,7 +238,7 @@ class C16(Campaign):
     def scenario(self, rnd, tier):
         k = gen.knobs(p_validator=0.15, listeners=(0, 1), rtc=[True, True, False], allow=[False, True],
                       async_modes=["none"], drivers=["sync"], p_unknown_event=0.05, n_ops=(3, 9), p_ret=0.4,
-                      states=(2, 4), extra_trans=(0, 4))
+                      states=(2, 4), extra_trans=(0, 4), p_from_any=0.15)
         base = gen.gen_program(rnd, k, name="P0")
         for c, m in base["cbs"].items():
             if rnd.random() < 0.25:
